@@ -276,7 +276,7 @@ theorem processUpdateTail_unmatched (q : SemQuery) (st : LoopState) (nr : Nat) (
 
 /-- the join map agrees with the specification of the partners (proved for `JoinMap.build` below) -/
 def JoinMapOK (q : SemQuery) (B : Table) (jm : JoinMap) : Prop :=
-  ∀ js, q.join = some js → (jm.maxLen = maxWidth B ∧
+  ∀ js, q.join = some js → (jm.maxLen = nullWidth js B ∧
     ∀ key, jm.get key = (partnersSpec js.rhs B key).map (fun p => (p.1, p.2.length, p.2)))
 
 /-- one record: the engine step is the specification step followed by one accepted write -/
@@ -383,7 +383,7 @@ theorem mainLoop_update_gen (q : SemQuery) (B : Table) (jm : JoinMap) (hupd : q.
 
 /-- **main loop of UPDATE = `updateSpec`** (join-map characterisation as a hypothesis) -/
 theorem mainLoop_update (q : SemQuery) (A B : Table) (jm : JoinMap) (hupd : q.isUpdate = true)
-    (hjm : ∀ js, q.join = some js → (jm.maxLen = maxWidth B ∧
+    (hjm : ∀ js, q.join = some js → (jm.maxLen = nullWidth js B ∧
         ∀ key, jm.get key = (partnersSpec js.rhs B key).map (fun p => (p.1, p.2.length, p.2))))
     (sink : Sink) (hs : sink.refuseFrom = none) :
     match updateSpec q B A 0 0 with
@@ -746,15 +746,16 @@ theorem JoinMap.build_spec (rhs : List (Option Nat)) (B : Table) (n : Nat) (jm :
 
 theorem JoinMap.build_ok (q : SemQuery) (B : Table) (js : JoinSpec) (hj : q.join = some js)
     (hjb : joinBError js.rhs B = none) :
-    ∃ jm, JoinMap.build js.rhs B 0 {} = .ok jm ∧ JoinMapOK q B jm := by
+    ∃ jm, JoinMap.build js.rhs B 0 {} = .ok jm ∧ JoinMapOK q B (jm.widen js.nullWidth) := by
   obtain ⟨jm, hb, hmax, hget⟩ := JoinMap.build_spec js.rhs B 0 {} hjb
   refine ⟨jm, hb, ?_⟩
   intro js' hj'
   rw [hj] at hj'
   injection hj' with hj'
   subst hj'
-  refine ⟨hmax, ?_⟩
+  refine ⟨by simp only [JoinMap.widen, nullWidth, maxWidth, hmax], ?_⟩
   intro key
+  show jm.get key = _
   rw [hget key]
   simp [partnersSpec, JoinMap.get, List.map_map, Function.comp_def]
 
@@ -799,8 +800,8 @@ theorem run_update_eq_spec_sink (q : SemQuery) (A B : Table) (sink : Sink) (hs :
     exact core {} _ hjm _ rfl
   | some js =>
     obtain ⟨jm, hb, hjm⟩ := JoinMap.build_ok q B js hj (hjb js hj)
-    simp only [hb]
-    exact core jm _ hjm _ rfl
+    simp only [hb, Except.map]
+    exact core (jm.widen js.nullWidth) _ hjm _ rfl
 
 /-- **UPDATE: `run` = `updateSpec`** -/
 theorem run_update_eq_spec (q : SemQuery) (A B : Table) (hupd : q.isUpdate = true) (hg : q.groupBy = none)
